@@ -71,6 +71,7 @@ class Rules:
         cur = list(exprs)
         out += self.nth_of_concat(exprs)
         out += self.array_instances(exprs)
+        out += self.prefix_extension(exprs)
         # every predicate is unfolded on every structured sequence term of the VC (congruence then carries it across equalities)
         seeds = []
         for t in self.subterms(exprs):
@@ -118,6 +119,24 @@ class Rules:
             la = z3.Length(a)
             for t in idx[:16]:
                 out.append(z3.Implies(z3.And(t >= 0, t < z3.Length(c)), c[t] == z3.If(t < la, a[t], b[t - la])))
+        return out
+
+    def prefix_extension(self, exprs):
+        """ground instances of  s[:b+1] = s[:b] ++ [s[b]]  for the prefixes of the same sequence that occur in the VC"""
+        by_seq = {}
+        for t in self.subterms(exprs):
+            if z3.is_app(t) and t.decl().kind() == z3.Z3_OP_SEQ_EXTRACT and t.sort() == SeqV:
+                off = z3.simplify(t.arg(1))
+                if z3.is_int_value(off) and off.as_long() == 0:
+                    by_seq.setdefault(t.arg(0).get_id(), []).append(t)
+        out = []
+        for ts in by_seq.values():
+            for a in ts[:6]:
+                for b in ts[:6]:
+                    if a.get_id() == b.get_id():
+                        continue
+                    s_, la, lb = a.arg(0), a.arg(2), b.arg(2)
+                    out.append(z3.Implies(z3.And(la == lb + 1, lb >= 0, lb < z3.Length(s_)), a == z3.Concat(b, z3.Unit(s_[lb]))))
         return out
 
     def _for_term(self, t):
